@@ -162,6 +162,29 @@ type Narrow struct {
 	F uint64
 }
 
+// renames that land on the names of sibling fields: a chain, a swap, a cycle with optionals
+type RenChain struct {
+	Id    int64
+	Name  string
+	Title string
+}
+type RenSwap struct {
+	A int64
+	B string
+}
+type RenCycle struct {
+	Id    *int64
+	Name  *string
+	Title string
+}
+
+// nullable / optional bytes and lists behind pointers (empty is not null, empty is not absent)
+type NulBytes struct {
+	B *[]byte
+	L *[]string
+	O *[]byte
+}
+
 // inferred-schema witnesses
 type DupLists struct {
 	X []string
@@ -220,6 +243,10 @@ type Deep struct { A Outer B [Outer] C MapSS }
 type Bytes2 struct { A Bytes B Bytes }
 type ReqPtr struct { P Int S String }
 type Narrow struct { A Int B Int C Int D Int E Int F Int }
+type RenChain struct { Id Int (rename "Name") Name String (rename "Title") Title String (rename "t") }
+type RenSwap struct { A Int (rename "B") B String (rename "A") }
+type RenCycle struct { Id optional Int (rename "Name") Name optional String (rename "Title") Title String (rename "Id") }
+type NulBytes struct { B nullable Bytes L nullable [String] O optional Bytes }
 type DupLists struct { X [String] Y [String] }
 type InfA struct { X [String] }
 type InfB struct { Y [String] }
@@ -277,6 +304,10 @@ var typeTable = []typeEntry{
 	{"Bytes2", (*Bytes2)(nil), "Bytes2"},
 	{"ReqPtr", (*ReqPtr)(nil), "ReqPtr"},
 	{"Narrow", (*Narrow)(nil), "Narrow"},
+	{"RenChain", (*RenChain)(nil), "RenChain"},
+	{"RenSwap", (*RenSwap)(nil), "RenSwap"},
+	{"RenCycle", (*RenCycle)(nil), "RenCycle"},
+	{"NulBytes", (*NulBytes)(nil), "NulBytes"},
 	{"DupLists", (*DupLists)(nil), "DupLists"},
 	{"InfA", (*InfA)(nil), "InfA"},
 	{"InfB", (*InfB)(nil), "InfB"},
